@@ -148,6 +148,15 @@ class State:
 
     def write_field(self, ref, field, v):
         owner, T = self.schema.field(ref.cls, field)
+        if isinstance(v, VLoc) and isinstance(T, (ty.Map, ty.Lst)):
+            o = self.loc(v)
+            if len(o.data) != 0:
+                raise EngineError(f"non-empty literal container stored into heap field {ref.cls}.{field}")
+            if isinstance(T, ty.Map):
+                v = self.new_map(T)
+            else:
+                v = self.new_obj(T.cls, T)
+                self.lst_set(v, z3.Empty(z3.SeqSort(T.elem.comps[0])))
         arrs = self._comp(owner, field, T)
         terms = flatten(v, T)
         self.heap[(owner, field)] = tuple(
